@@ -178,6 +178,12 @@ def check_one(rep, binary, doc, prog, indent):
     except (ValueError, UnicodeDecodeError) as e:
         rep.violation(f"C15:reload:unparseable_json:{rc}", f"{e}", replay)
         return
+    if b'"<<":' in y.out or b"'<<':" in y.out:
+        ok_all = len(v1) == len(v2) and all(cmp_equal(a, b) for a, b in zip(v1, v2))
+        if not ok_all:
+            rep.violation("C15:reload:quoted_merge_key_is_merged_on_reload",
+                          f"yq -I{indent} {prog!r}: output holds a quoted << key, which the loader merges away on reload; yaml head {y.out[:120]!r}", replay)
+            return
     if len(v1) != len(v2) and root_str:
         rep.violation(ROOT, f"yq -I{indent} {prog!r}: {len(v1)} results, one a root-level string printed raw; reloads as {len(v2)} documents", replay)
         return
